@@ -221,6 +221,65 @@ pub fn threshold_family() -> Vec<(String, Graph)> {
     out
 }
 
+/// Composition family: irregular medium-size frameworks glued from small pieces. Pieces are the
+/// isomorphism classes of the connected digraphs with 1-3 arguments (loops allowed).
+/// level 0: every unordered pair of pieces, disjoint or joined by one attack between their first
+///          arguments (either direction); every ordered triple over a 12-piece sub-menu, consecutive
+///          pieces disjoint or joined first-argument to first-argument (4 patterns): <= 9 arguments;
+/// level 1: pairs joined by one attack between ANY two of their arguments (either direction) as well.
+pub fn composition_family(level: u8) -> Vec<(String, Graph)> {
+    let mut pieces: Vec<Graph> = vec![];
+    for n in 1..=3 {
+        pieces.extend(iso_representatives(n).into_iter().filter(|g| g.is_connected()));
+    }
+    let mut out = vec![];
+    let with_edge = |g: &Graph, e: (usize, usize)| {
+        let mut att = g.att.clone();
+        att.push(e);
+        Graph::new(g.n, &att)
+    };
+    for i in 0..pieces.len() {
+        for j in i..pieces.len() {
+            let (p, q) = (&pieces[i], &pieces[j]);
+            let u = p.union(q);
+            out.push((format!("pair:{}+{}", i, j), u.clone()));
+            for a in 0..p.n {
+                for b in 0..q.n {
+                    if level == 0 && (a != 0 || b != 0) {
+                        continue;
+                    }
+                    out.push((format!("pair:{}+{}:{}>{}", i, j, a, p.n + b), with_edge(&u, (a, p.n + b))));
+                    out.push((format!("pair:{}+{}:{}<{}", i, j, a, p.n + b), with_edge(&u, (p.n + b, a))));
+                }
+            }
+        }
+    }
+    // sub-menu for triples: pieces spread over the list (first, every k-th, last)
+    let step = (pieces.len() / 11).max(1);
+    let mut menu: Vec<usize> = (0..pieces.len()).step_by(step).collect();
+    menu.truncate(11);
+    menu.push(pieces.len() - 1);
+    for &i in &menu {
+        for &j in &menu {
+            for &k in &menu {
+                let (p, q, r) = (&pieces[i], &pieces[j], &pieces[k]);
+                let u = p.union(q).union(r);
+                for pat in 0..4u8 {
+                    let mut g = u.clone();
+                    if pat & 1 == 1 {
+                        g = with_edge(&g, (0, p.n));
+                    }
+                    if pat & 2 == 2 {
+                        g = with_edge(&g, (p.n + q.n, p.n));
+                    }
+                    out.push((format!("triple:{}+{}+{}:{}", i, j, k, pat), g));
+                }
+            }
+        }
+    }
+    out
+}
+
 /// Dense extremes: complete digraphs. With loops on 16 arguments the product of the defender-set
 /// sizes of every argument is 16^16 = 2^64 exactly (the hybrid encoder's threshold test must stop
 /// multiplying long before); without loops it is 15^16 (overflows 64 bits to a non-zero value).
